@@ -46,6 +46,8 @@ FIXTURES = ['p2pkh', 'p2sh-multisig-2-of-2', 'p2sh-multisig-invalid-order', 'p2s
 def obligations(tier, seed):
     obs = []
     for s in PLAIN: obs.append(dict(name='plain/' + s, kind='plain', script=s, args=['0x01'] if s.startswith('OP_IF') else []))
+    # long pushes: every push form and the longest listing lines (a 520-byte push is a 1046-character line)
+    for n in (75, 76, 255, 256, 508, 509, 520): obs.append(dict(name='plain/push-%d-bytes' % n, kind='plain', script='0x' + 'ab' * n + ' OP_SIZE OP_NIP', args=[]))
     for f in FIXTURES: obs.append(dict(name='fixture/' + f, kind='fixture', fx=f, timeout_s=900, cost=10))
     for m in range(0, 4): obs.append(dict(name='tce-lines/m%d' % m, kind='tcelines', m=m))
     for m in range(0, 4): obs.append(dict(name='tapscript-session/m%d' % m, kind='tapsession', m=m, timeout_s=900, cost=5))
